@@ -21,7 +21,7 @@ pub static DEF: CheckDef = CheckDef {
            build (all differentiable operations incl. matmul, conv, user operations), backward on any live node \
            (seed kept by the caller), keep a clone / reshaped view / sum(0) alias, fetch-and-keep a gradient before \
            later passes accumulate into the slot, clear via replace_gradient (returned array kept) or gradient_mut, \
-           GradientDescent::update on subsets of the leaves (older handles and clones kept), drops of other handles; family training: real Model loops whose inputs, targets, outputs, per-layer inputs/outputs, parameters and parameter gradients of every iteration are kept and re-verified after the run. \
+           GradientDescent::update on subsets of the leaves (older handles and clones kept), drops of other handles; family training: real Model loops whose inputs, targets, outputs, per-layer inputs/outputs, parameters and parameter gradients of every iteration are kept and re-verified after the run; family scoped: hand-written minibatch loops over 1..3 parameters whose graph lives in an inner scope (released before the optimizer update, or held), with views of the parameters taken while tracking is paused (stop_tracking / reshape / start_tracking), clones, tracked reshapes and fetched gradients re-verified after every update. \
            Non-trivial = at least one pass or update ran while >= 5 registered aliases were alive; distinct = \
            distinct history text.",
     floors,
@@ -59,7 +59,8 @@ fn run_training(ctx: &mut Ctx, r: &mut Rng) {
             Some((o, _)) => o,
             None => return,
         };
-        iterations.push(Iteration { input, target: gen_target(r, &out.dims), double_backward: r.chance(1, 6) });
+        let tg = gen_target(r, &out.dims);
+        iterations.push(Iteration::plain(input, tg, r.chance(1, 6)));
     }
     let desc = format!("training|{} iterations={}", spec.describe(), n_iter);
     ctx.case(&desc, true);
